@@ -111,7 +111,9 @@ func verifyUnit(p *Program, u *Unit) (res *UnitResult) {
 		}
 	}
 	// ghost abstract index of the element generator in use (DESIGN.md 3.3)
-	st.ghost["genJ"] = Val{K: KRef, T: r.fresh("genJ", idxSort), Sort: idxSort}
+	// (one index per generator: a map from function values to indices)
+	r.needFn()
+	st.ghost["genIdx"] = Val{K: KRef, T: r.fresh("genIdx", genIdxSort), Sort: genIdxSort}
 	r.entry = st.clone()
 	// axioms of the package
 	envA := &SpecEnv{run: r, st: st, old: r.entry, bound: map[string]Val{}}
